@@ -14,8 +14,17 @@ Bounds: all machine-checked (Properties_C19.v): susceptibility beta eps F (susc_
 Green's function 6 F^2 beta^3 (4/pi^3 + 2/pi^2) eps on fermionic Matsubara frequencies (tpgf_truncation_bound; F = measured
 Frobenius norm^2 of the operator matrices, >= dim/2).  Histories of several truncateBlocks calls on one DensityMatrix are
 judged like a single call with the last tolerance.
+Non-contiguous retained stripes (both tiers, independent of the seed): blocks are numbered by (N, Sz), not by energy, so
+the stripes of an operator that touch a retained block need not be neighbours in the order in which the prepare() walks
+meet them.  Fixed models (Hubbard dimer at and away from half filling, dimer in a field, 3-site chain; NONCONTIG_MODELS)
+at beta in {4, 10, 30} are run untruncated once; eps is then placed between the k-th and (k+1)-th largest block maxima
+of the dumped weights (capped at 1e-2) for those k where some Green's function or susceptibility has, in walk order,
+the stripe pattern retained .. discarded .. retained (predicted from the untruncated part lists), plus k = 1.  For
+these runs ALL G_ij, all <c^+_i c_j>, density / spin-flip susceptibilities and two-particle functions are compared
+with the same model and the same bounds; the pattern reached goes into the signature of the case.
 """
 import math
+import random
 import concurrent.futures as cf
 import pv
 import edlib
@@ -33,9 +42,9 @@ def hexf(x):
     return float(x).hex()
 
 
-def queries_for(rng, n, beta, quick):
+def queries_for(rng, n, beta, quick, allpairs_always=False, ntriples=None, more_susc=False):
     allpairs = [(i, j) for i in range(n) for j in range(n)]
-    if quick and n > 2:
+    if quick and n > 2 and not allpairs_always:
         pairs = [(0, 0), (0, 1), (0, 2), (1, 3), (n - 1, n - 1)]
         pairs = [p for p in pairs if p[0] < n and p[1] < n]
         pairs += [allpairs[rng.randrange(len(allpairs))] for _ in range(2)]
@@ -57,22 +66,28 @@ def queries_for(rng, n, beta, quick):
     if n >= 4:
         suscs += [(0, 2, 2, 0), (1, 3, 0, 2)]
         chis += [(0, 2, 2, 0), (0, 1, 3, 2)]
+    if more_susc:
+        # density-density, exchange-like and spin-flip-like pairs of quadratic operators for every mode
+        suscs += [(i, i, j, j) for i in range(n) for j in range(i, n)] + [(i, j, j, i) for i in range(n) for j in range(n) if i != j]
+        suscs = sorted(set(suscs))
     for a, b, c, d in suscs:
         q.append("quad %d %d" % (a, b))
         q.append("quad %d %d" % (c, d))
         q.append("susc %d %d %d %d 0 0 1 2 -3" % (a, b, c, d))
         q.append("suscterms %d %d %d %d" % (a, b, c, d))
-    tr = scen.matsubara_triples(rng, 3 if quick else 8, span=2)
+    tr = scen.matsubara_triples(rng, ntriples if ntriples is not None else (3 if quick else 8), span=2)
     for i, j, k, l in chis:
         q.append("chi %d %d %d %d 0 %d %s" % (i, j, k, l, len(tr), " ".join("%d %d %d" % t for t in tr)))
     return q, pairs, zs, suscs, chis, tr
 
 
-def run_pair(job):
+def run_pair(job, rb=None):
+    """rb: the untruncated run of the same (text, beta, queries) when the caller already has it"""
     fam, text, n, beta, eps, q = job
     base = text + "beta %s\n" % repr(beta)
     plain = "".join(l + "\n" for l in base.split("\n") if l and not l.startswith("trunc"))   # reference run: truncateBlocks never called
-    rb = edlib.run(plain, q, oracle=False, timeout=900)
+    if rb is None:
+        rb = edlib.run(plain, q, oracle=False, timeout=900)
     rt = edlib.run(base + "trunc %s\n" % repr(eps), q, oracle=False, timeout=900)
     rb.scenario, rt.scenario = plain, base + "trunc %s\n" % repr(eps)
     model = (1, [], "")
@@ -90,6 +105,96 @@ def run_pair(job):
                 mq.append("chiparts %s" % " ".join(w[1:5]))
         model = C09.run_model(rt, mq, trunc=eps)
     return job, rb, rt, model
+
+
+# ---- scenarios aimed at retained stripes that are not neighbours in walk order ---------------------------------------
+# (name, scenario text, modes).  Dyadic amplitudes.  Block numbers follow the (N, Sz) classification, so at low temperature
+# the heavy blocks (ground-state sector and its low-lying neighbours) sit in the middle of the numbering and the walk of
+# c_i / c^+_i c_j meets them with discarded stripes in between.
+NONCONTIG_MODELS = [
+    ("dimer-half-filled", "site A 1 2\nsite B 1 2\naddCoulombS A 1 -0.5\naddCoulombS B 1 -0.5\naddHopping4 A B -1\nsymm default\n", 4),
+    ("dimer-doped", "site A 1 2\nsite B 1 2\naddCoulombS A 3 -0.375\naddCoulombS B 3 -0.375\naddHopping4 A B -0.5\nsymm default\n", 4),
+    ("dimer-in-field", "site A 1 2\nsite B 1 2\naddCoulombS A 2 -1\naddCoulombS B 2 -1\naddHopping4 A B 0.5\naddMagnetization A 0.25\naddMagnetization B 0.25\nsymm default\n", 4),
+    ("chain3-half-filled", "site A 1 2\nsite B 1 2\nsite C 1 2\naddCoulombS A 2 -1\naddCoulombS B 2 -1\naddCoulombS C 2 -1\naddHopping4 A B -1\naddHopping4 B C -1\nsymm default\n", 6),
+]
+NONCONTIG_BETAS = [4.0, 10.0, 30.0]
+EPS_MAX = 1e-2           # the property quantifies over eps in [0, 1e-2]
+
+
+def stripe_pattern(stripes, keep):
+    """stripes: [(left block, right block)] in walk order; keep: set of retained blocks.
+    -> 'R'/'D' string and whether a discarded stripe lies between two retained ones"""
+    pat = "".join("R" if (a in keep or b in keep) else "D" for a, b in stripes)
+    core = pat.strip("D")
+    return pat, "D" in core
+
+
+def eps_candidates(W):
+    """W: {block: [weights]} -> [(k, eps, retained set)]: eps between the k-th and the (k+1)-th largest DISTINCT block
+    maximum (geometric mean, capped at EPS_MAX, kept away from both by a factor 1 +- 1e-6), largest first"""
+    mx = sorted(((max(w), b) for b, w in W.items()), reverse=True)
+    levels = []
+    for m, b in mx:
+        if levels and m >= levels[-1][0] * (1 - 1e-9):
+            levels[-1][1].add(b)
+        else:
+            levels.append((m, set([b])))
+    out, keep = [], set()
+    for k in range(len(levels) - 1):
+        keep = keep | levels[k][1]
+        hi, lo = levels[k][0], levels[k + 1][0]
+        eps = min(math.sqrt(hi * lo), EPS_MAX)
+        if lo <= 0.0 or not (lo * (1 + 1e-6) < eps < hi * (1 - 1e-6)):
+            continue
+        out.append((k + 1, eps, set(keep)))
+    return out
+
+
+def run_noncontig_group(group):
+    """one model at one temperature: untruncated run, choice of the tolerances from its weights, truncated runs.
+    -> [(job, rb, rt, model, info)]"""
+    name, text, n, beta, q, maxeps = group
+    plain = text + "beta %s\n" % repr(beta)
+    rb = edlib.run(plain, q, oracle=False, timeout=900)
+    rb.scenario = plain
+    if rb.error or rb.crash or not rb.dumprec("W"):
+        job = (name, text, n, beta, 0.0, q)
+        return [(job, rb, rb, (1, [], ""), {"k": 0, "noncontig": [], "patterns": {}})]
+    W = rb.weights()
+    gfs = parts_of(rb.impl, "GFPARTS", "GFTERMS", 2)
+    sus = parts_of(rb.impl, "SUSCPARTS", "SUSCTERMS", 4)
+    chosen = []
+    for k, eps, keep in eps_candidates(W):
+        hits, pats = [], {}
+        for key, stripes in list(gfs.items()) + list(sus.items()):
+            pat, nc = stripe_pattern(stripes, keep)
+            if nc:
+                hits.append(("G" if len(key) == 2 else "chi") + "_" + "".join(key))
+                pats[hits[-1]] = pat
+        if hits or k == 1:
+            chosen.append((k, eps, hits, pats))
+    # at most maxeps tolerances: k = 1 and the ones with most operators showing the pattern
+    first = [c for c in chosen if c[0] == 1]
+    rest = sorted([c for c in chosen if c[0] != 1], key=lambda c: (-len(c[2]), c[0]))
+    chosen = sorted((first + rest)[:maxeps])
+    out = []
+    for k, eps, hits, pats in chosen:
+        job = (name, text, n, beta, eps, q)
+        _, _, rt, model = run_pair(job, rb)
+        out.append((job, rb, rt, model, {"k": k, "noncontig": hits, "patterns": pats}))
+    return out
+
+
+def noncontig_groups(quick):
+    rng = random.Random(19)            # fixed: these scenarios do not depend on the seed of the run
+    groups = []
+    for name, text, n in NONCONTIG_MODELS:
+        for beta in NONCONTIG_BETAS:
+            q = queries_for(rng, n, beta, True, allpairs_always=True, ntriples=2 if n > 4 else 3, more_susc=(n <= 4))[0]
+            if n > 4:
+                q = [t for t in q if not t.startswith("chi ") or t.startswith("chi 0 0 0 0") or t.startswith("chi 0 1 1 0")]
+            groups.append((name, text, n, beta, q, (3 if n <= 4 else 2) if quick else 5))
+    return groups
 
 
 def parts_of(recs, head, tag, nkey):
@@ -389,30 +494,58 @@ def run(chk):
                 # (the run is compared with the untruncated one and with the model of a single call)
                 for pre, eps in SEQS[(len(jobs) // len(EPSS)) % len(SEQS)] if not quick else SEQS[(len(jobs) // len(EPSS)) % len(SEQS)][:2]:
                     jobs.append((fam + "+history", text + "".join("trunc %s\n" % repr(e) for e in pre), n, beta, eps, q))
+    groups = noncontig_groups(quick)
     with cf.ThreadPoolExecutor(max_workers=min(8, pv.NPROC)) as ex:
+        fut = [ex.submit(run_noncontig_group, g) for g in groups]      # the longest jobs (6 modes, all pairs) first
         results = list(ex.map(run_pair, jobs))
-    nviol = 0
-    for job, rb, rt, model in results:
+        nc_results = [x for f in fut for x in f.result()]
+    state = {"nviol": 0}
+
+    def judge(job, rb, rt, model, info=None):
         fam, text, n, beta, eps, q = job
         problems, ndisc = analyse(chk, job, rb, rt, model)
         nb = len(rt.weights()) if not (rt.error or rt.crash) else 0
-        sig = "%s beta=1e%+d eps=%g discarded=%s" % (fam, round(math.log10(beta)), eps, "0" if ndisc == 0 else ("all-but-1" if ndisc == nb - 1 else ("most" if 2 * ndisc > nb else "some")))
-        chk.case(rt.scenario + "|" + ";".join(q), sig, nontrivial=ndisc > 0 or eps == 0.0,
-                 sample={"family": fam, "beta": beta, "eps": eps, "blocks": nb, "discarded": ndisc} if (ndisc > 0 and len(chk.samples) < 6) else None)
-        if problems and nviol < 3:
-            nviol += 1
+        disc = "0" if ndisc == 0 else ("all-but-1" if ndisc == nb - 1 else ("most" if 2 * ndisc > nb else "some"))
+        if info is None:
+            sig = "%s beta=1e%+d eps=%g discarded=%s" % (fam, round(math.log10(beta)), eps, disc)
+            sample = {"family": fam, "beta": beta, "eps": eps, "blocks": nb, "discarded": ndisc}
+        else:
+            kinds_nc = sorted(set(h.split("_")[0] for h in info["noncontig"]))
+            sig = "noncontig %s beta=%g k=%d discarded=%s pattern=%s" % (fam, beta, info["k"], disc, "+".join(kinds_nc) if kinds_nc else "contiguous")
+            sample = {"family": fam, "beta": beta, "eps": eps, "blocks": nb, "discarded": ndisc, "retained_levels_k": info["k"],
+                      "operators_with_R..D..R_stripes": info["noncontig"][:12], "patterns": dict(list(info["patterns"].items())[:4])}
+            STATS["noncontig_runs"] = STATS.get("noncontig_runs", 0) + 1
+            if info["noncontig"]:
+                STATS["noncontig_runs_with_pattern"] = STATS.get("noncontig_runs_with_pattern", 0) + 1
+                STATS["noncontig_operator_instances"] = STATS.get("noncontig_operator_instances", 0) + len(info["noncontig"])
+        keep_sample = ndisc > 0 and (len(chk.samples) < 6 if info is None else (bool(info["noncontig"]) and state.get("ncs", 0) < 3))
+        if keep_sample and info is not None:
+            state["ncs"] = state.get("ncs", 0) + 1
+        chk.case(rt.scenario + "|" + ";".join(q), sig, nontrivial=ndisc > 0 or eps == 0.0, sample=sample if keep_sample else None)
+        if problems and state["nviol"] < 3:
+            state["nviol"] += 1
             kinds = set(p[0] for p in problems)
             small, subq = shrink(chk, job, kinds)
             kind0 = [k for k in PRIORITY if k in kinds][0]
             key = "%s beta=%g eps=%g %s | %s" % (kind0, beta, eps, fam, small.replace("\n", ";"))
-            chk.violation(key, "block truncation (%s, beta=%g, eps=%g): %s" % (fam, beta, eps, "; ".join(p[1] for p in problems[:2])),
+            chk.violation(key, "block truncation (%s, beta=%g, eps=%r; scenario: %s): %s" % (fam, beta, eps, small.strip().replace("\n", "; "), "; ".join(p[1] for p in problems[:2])),
                           {"scenario": small + "beta %s\n" % repr(beta), "eps": eps, "queries": subq, "family": fam, "beta": beta,
                            "problems": problems, "harness": "h_ed (run with and without the line `trunc eps`)"})
+
+    # the fixed scenarios first: their violations name a small hand-picked model
+    for job, rb, rt, model, info in nc_results:
+        judge(job, rb, rt, model, info)
+    for job, rb, rt, model in results:
+        judge(job, rb, rt, model)
     chk.rule = ("one random instance per family of tools/scen.py (9 families; 3 in the thorough tier) at beta in {1, 10, 100}, each run untruncated and with "
                 "trunc eps for eps in {0, 1e-12, 1e-8, 1e-4, 1e-2}; per run G at 4 Matsubara and 3 complex off-axis points and <c^+_i c_j> for a sample of "
                 "index pairs (all pairs for 2 modes and in the thorough tier), 1-5 susceptibilities at 4 bosonic frequencies, 1-4 two-particle Green's "
-                "functions at resonance-aimed frequency triples; distinct = distinct (scenario, queries); non-trivial = at least one block discarded, or eps = 0")
-    chk.extra["runs"] = len(jobs)
+                "functions at resonance-aimed frequency triples; distinct = distinct (scenario, queries); non-trivial = at least one block discarded, or eps = 0.  "
+                "In addition, independent of the seed: %d fixed models (%s) at beta in {4, 10, 30}, eps placed between consecutive distinct block maxima of the "
+                "dumped weights (<= 1e-2; k = 1 and the k for which some G_ij / susceptibility has the stripe pattern retained..discarded..retained in walk "
+                "order; at most %s per model and temperature), ALL G_ij and <c^+_i c_j>, density and exchange susceptibilities, 2-4 two-particle functions"
+                % (len(NONCONTIG_MODELS), ", ".join(m[0] for m in NONCONTIG_MODELS), "3 (2 for six modes)" if quick else "5"))
+    chk.extra["runs"] = len(jobs) + len(nc_results)
     chk.extra["comparisons"] = dict(STATS)
 
 
